@@ -220,7 +220,7 @@ Print Assumptions monitor_sync_on_model.
 
 (* all components proved so far, in one statement; sel_proved names their positions in p_components *)
 Theorem monitor_components_on_model : forall cfg t0 evs,
-  selectors_in_range (init cfg t0) evs -> fresh_calls [] evs -> bg_scripts_ok evs -> learner_ids_unique evs ->
+  selectors_in_range (init cfg t0) evs -> fresh_calls [] evs -> bg_scripts_ok evs -> learner_ids_unique evs -> causes_ok evs ->
   panicked (snd (run (init cfg t0) evs)) \/ trace_sub sel_proved cfg t0 (model_trace cfg t0 evs) = true.
 Proof. exact monitor_components_on_model. Qed.
 Print Assumptions monitor_components_on_model.
